@@ -344,6 +344,12 @@ pub fn set_task_name(name: &str) {
     TASK_NAME.with(|t| *t.borrow_mut() = name.to_string());
 }
 
+/// Marks a helper thread spawned by a world (a simulated caller thread): panics on it are recorded
+/// in that thread's own panic list (read with [`take_panics`] on that thread) instead of being printed.
+pub fn worker_thread_enter() {
+    IN_RUN.with(|r| *r.borrow_mut() = true);
+}
+
 pub fn take_panics() -> Vec<PanicRecord> {
     PANICS.with(|p| p.try_borrow_mut().map(|mut p| std::mem::take(&mut *p)).unwrap_or_default())
 }
